@@ -119,7 +119,9 @@ impl Iterator for Query<'_> {
     type Item = Result<Numeric, Error>;
 
     fn next(&mut self) -> Option<Self::Item> {
-        let node = self.children.next()?;
+        // Loose tokens at the root (blanks around the expression, the
+        // parentheses of a fully parenthesised one) are not results.
+        let node = self.children.next_node()?;
         Some(crate::eval::eval(self, node, Default::default()))
     }
 }
